@@ -205,8 +205,13 @@ class LookupGenerator:
             return self.table[pos]
         elif len(pos) == 2:  # GridWorld
             return self.table[pos[0]][pos[1]]
-        else:  # CubeWorld
-            return self.table[pos[0]][pos[1]][pos[2]]
+        else:  # CubeWorld or any DiscreteWorld (they always supply 3-tuples): index only as deep as the table goes
+            value = self.table
+            for coord in pos:
+                if not isinstance(value, (list, tuple, np.ndarray)):
+                    break
+                value = value[coord]
+            return value
 
 
 class SpaceWorld(Environment):
